@@ -796,6 +796,14 @@ def c03(tier):
         if ln % 3 == 0:
             d["prefix"] = b"#" * (ln % 50)
         scs.append(gen_reader.scenario("cl%05d" % ln, d)[0])
+    # an end-record signature inside the LAST 21 bytes of the file (in the comment, or in garbage behind it) cannot start an end
+    # record - there is no room for one - so it is not the format's inherent ambiguity: the real end record must still be found
+    for j in range(0, 18):
+        tail = b"PK\x05\x06" + b"t" * j
+        scs.append(gen_reader.scenario("sigc%02d" % j, {"entries": [{"name": b"s.txt", "method": 8, "data": b"signature in the comment tail " * 3}],
+                                                       "comment": b"c" * (j % 5) + tail})[0])
+        scs.append(gen_reader.scenario("sigg%02d" % j, {"entries": [{"name": b"s.txt", "method": 0, "data": b"signature in trailing bytes"}],
+                                                       "comment": b"cm", "trailing": tail[:21]})[0])
     rep.notes["comment_length_cases"] = len(scs)
     run_reader_scenarios(rep, wd, scs, "comment-lengths", neg_control=False)
     # independent producer with every per-entry freedom; CPython as a second producer
@@ -2701,7 +2709,7 @@ def zip64_scenarios(tier, rnd):
     def writer_sc(sc, ops, select=None, read=None):
         names, sizes, cur = [], [], None
         for o in ops:
-            if o["op"] == "start":
+            if o["op"] in ("start", "start_aligned", "start_extra"):
                 names.append(o["name"])
             elif o["op"] == "dir":
                 names.append(o["name"] + "/")
@@ -2740,8 +2748,21 @@ def zip64_scenarios(tier, rnd):
             if tier == "quick" and (sz, large) in ((T - 1, True), (T + 1, False), (T + 1, True), (T, True)):      # (two-big covers large entries)
                 continue
             scs.append(big_entry("size-%d-%s" % (sz, "large" if large else "plain"), sz, large, comment="zip64" if sz % 2 else None))
+    # the declaration counts whichever call starts the entry, and it is per entry: a large entry started through the alignment /
+    # extra-data calls takes more than 4 GiB; an entry NOT declared large that follows a large one is still refused at the limit
+    for how in (("start_aligned", "start_extra") if tier == "thorough" else ("start_aligned",)):
+        head, tail = b"\x77", b"\x88"
+        ops = [{"op": "start", "name": "small-first", "large": False, "method": 0}, {"op": "data", "data": "a small entry first"},
+               {"op": how, "name": "big", "large": True, "method": 0, "align": 4096}, {"op": "zeros", "n": T + 1, "head": head.hex(), "tail": tail.hex()}, {"op": "finish"}]
+        s = writer_sc("declared-large-%s" % how, ops, select=[1, 2])
+        s["read"] = [{"i": 2, "head": 1, "tail": 1, "expect": {"len": _big(T + 1), "head": head.hex(), "tail": tail.hex()}}]
+        s["expect"]["sizes"] = [{"i": 2, "usize": _big(T + 1), "crc": zc.crc(T + 1, head, tail)}]
+        scs.append(s)
+        ops = [{"op": "start", "name": "large-first", "large": True, "method": 0}, {"op": "data", "data": "declared large, but small"},
+               {"op": how, "name": "undeclared", "large": False, "method": 93, "align": 512}, {"op": "zeros", "n": T + 1, "head": "", "tail": ""}, {"op": "finish"}]
+        scs.append(writer_sc("undeclared-after-large-%s" % how, ops, select=[1]))
     # the same limit for a compressing method (the compressed size stays tiny, so only the write-side rule can refuse it)
-    for sz in ([T] if tier == "quick" else [T - 1, T, T + 1]):
+    for sz in ([] if tier == "quick" else [T - 1, T, T + 1]):      # (quick: undeclared-after-large-* above is the compressing-method case)
         ops = [{"op": "start", "name": "z", "large": False, "method": 93}, {"op": "zeros", "n": sz, "head": "", "tail": ""}, {"op": "finish"}]
         s = writer_sc("size-%d-plain-zstd" % sz, ops, select=[1])
         if sz <= T - 1:
